@@ -114,7 +114,7 @@ func loadDeb2Control
   ensures result == nil ==> (forall j int :: 0 <= j && j < callres("(*deb.ArEntry).Tarfile", 1, 0).pos - 1 ==> cleanPath(tarName(callres("(*deb.ArEntry).Tarfile", 1, 0), j)) != "control")
   ensures result == nil ==> is(callarg("control.Unmarshal", -1, 0), *Control) && as(callarg("control.Unmarshal", -1, 0), *Control) == &deb.Control
   ensures result == nil ==> is(callarg("control.Unmarshal", -1, 1), *tar.Reader) && as(callarg("control.Unmarshal", -1, 1), *tar.Reader) == callres("(*deb.ArEntry).Tarfile", 1, 0)
-  modifies *
+  modifies *deb
   loop 1:
     invariant tarball != nil && tarball == callres("(*deb.ArEntry).Tarfile", 1, 0) && tarball.pos >= 0 && closer != nil && deb != nil
     invariant forall j int :: 0 <= j && j < tarball.pos ==> cleanPath(tarName(tarball, j)) != "control"
